@@ -141,9 +141,19 @@ def gen(tier, rng, scale):
         files = []
         for _ in range(nfiles):
             if rng.chance(1, 2):
-                files.append(["fx", rng.choice(ELF_FIXTURES), rng.choice(["", "", "renamed.so", "lib with space.so", "moved:libmoved%d.so" % len(files), "lib\u00e9\u4e2d.so", 'lib"q".so', "lib\\b.so", "moved:lib'x%d.so" % len(files), "link:libver%d.so" % len(files)])])
+                files.append(["fx", rng.choice(ELF_FIXTURES), rng.choice(["", "", "renamed.so", "lib with space.so", "moved:libmoved%d.so" % len(files), "lib\u00e9\u4e2d.so", 'lib"q".so', "lib\\b.so", "moved:lib'x%d.so" % len(files), "link:libver%d.so" % len(files),
+                                                                        # upper-case letters outside ASCII (their lower-case forms exist, and are other file names)
+                                                                        "lib\u00c9cole.so", "\u00dcBUNG.so", "LIB\u0130\u03a3.so", "moved:\u00c5ngstr\u00f6m%d.so" % len(files)])])
             else:
                 files.append(["gen", rng.next(), rng.choice(["", "libgen.so.1", "a.out", "moved:genmoved%d.so" % len(files), "link:libgenver%d.so" % len(files)])])
+        if len(files) >= 2 and rng.chance(1, 3):
+            # two different binaries under one file name (the host's and a container's libc.so.6, two builds of one library in different directories):
+            # the same debug name with different debug ids
+            nm = rng.choice(["libsame.so", "libc.so.6", "plugin.so"])
+            if files[0][0] == "fx" and files[1][0] == "fx" and files[0][1] == files[1][1]:
+                files[1] = ["gen", rng.next(), nm]
+            files[0][2] = nm
+            files[1][2] = nm
         cases.append({"kind": "e2e", "gz": rng.chance(1, 2), "seed": rng.next(), "items": files})
     return cases
 
